@@ -504,6 +504,12 @@ def decodeTop (k : Kind) (bytes : List Byte) : Res Value :=
     | .panic => .panic
   | r => r
 
+/-- `flat::encode(&value)` of `mod.rs`: encode the value, then the filler; the encoder's buffer -/
+def encodeTop (v : Value) : Option (List Byte) :=
+  match Enc.new.value v with
+  | .ok e => some e.filler.buf
+  | _ => none
+
 /-! ## The arms as they were before the `fix:` commits (witnesses of DESIGN §6 #1–#3) -/
 namespace Orig
 
